@@ -13,6 +13,7 @@ use serde_json::{json, Value};
 use std::collections::{BTreeMap, BTreeSet};
 use std::panic::{catch_unwind, AssertUnwindSafe};
 use val::Val;
+use vmon::classify::{classify_lookup, classify_store, pressure, sig};
 use vmon::model::{self, Belief, Cfg, Flavour, Key, LookupOut, Policy, State, Step, SEC};
 use vmon::report::{hash64, Report};
 use vmon::rng::Rng;
@@ -178,139 +179,6 @@ struct Ctx<'a> {
     seed: u64,
 }
 
-fn pressure(cfg: &Cfg, pre: &State, k: Key, fp: usize) -> &'static str {
-    let others: usize = pre.ents.iter().filter(|e| e.key != k).map(|e| e.fp).sum();
-    let n_others = pre.ents.iter().filter(|e| e.key != k).count();
-    let mem = cfg.max_memory.map_or(false, |m| others + fp > m);
-    let lim = cfg.limit.map_or(false, |n| n_others + 1 > n);
-    match (mem, lim) {
-        (true, true) => "both",
-        (true, false) => "memory",
-        (false, true) => "limit",
-        (false, false) => "none",
-    }
-}
-
-fn sig(prop: &str, cfg: &Cfg, kind: &str, disc: &str) -> String {
-    format!("{}|L1|{}|{}|{}|{}", prop, cfg.flavour.name(), cfg.policy.name(), kind, disc)
-}
-
-/// Attributes a store whose observed successor no model outcome explains.
-fn classify_store(cfg: &Cfg, pre: &State, k: Key, val: u64, fp: usize, now: i64, post: &BTreeMap<Key, (u64, usize)>) -> (String, String, String) {
-    let lim = if cfg.limit.is_some() { "some" } else { "none" };
-    let mem = if cfg.max_memory.is_some() { "some" } else { "none" };
-    let pr = pressure(cfg, pre, k, fp);
-    let disc = format!("pressure={},limit={},mem={}", pr, lim, mem);
-    let disc0 = String::new();
-    // 1. keys from nowhere
-    for kk in post.keys() {
-        if *kk != k && pre.get(*kk).is_none() {
-            return ("C01".into(), sig("C01", cfg, "phantom-key-after-store", &disc0), format!("key k{} present after store but never stored", kk));
-        }
-    }
-    // 2. values
-    for (kk, (v, _)) in post {
-        let want = if *kk == k { val } else { pre.get(*kk).unwrap().val };
-        if *v != want {
-            let kind = if *kk == k { "replaced-value-not-stored" } else { "value-changed-by-other-store" };
-            return ("C01".into(), sig("C01", cfg, kind, &disc0), format!("k{} holds value {:x}, expected {:x} (last store wins)", kk, v, want));
-        }
-    }
-    // 3. bounds
-    if let Some(n) = cfg.limit {
-        if post.len() > n {
-            return ("C04".into(), sig("C04", cfg, "limit-exceeded", &disc), format!("{} entries after store, limit {}", post.len(), n));
-        }
-    }
-    if let Some(m) = cfg.max_memory {
-        let tot: usize = post.values().map(|x| x.1).sum();
-        if tot > m {
-            return ("C05".into(), sig("C05", cfg, "memory-exceeded", &disc), format!("{} bytes cached after store, max_memory {}", tot, m));
-        }
-        if fp > m && post.contains_key(&k) {
-            return ("C05".into(), sig("C05", cfg, "oversized-cached", &disc), "oversized value was cached".into());
-        }
-    }
-    // 4. was every eviction needed?  (C04: no victim without overflow, one per overflow;
-    //    C05: "only until the total fits and never while it already fits")
-    let before: BTreeSet<Key> = pre.keys().into_iter().chain(std::iter::once(k)).collect();
-    let removed: BTreeSet<Key> = before.iter().filter(|x| !post.contains_key(x)).copied().collect();
-    let allowed = model::store(cfg, pre, k, val, fp, now);
-    let allowed_sets: Vec<BTreeSet<Key>> = allowed.iter().map(|s| before.iter().filter(|x| s.get(**x).is_none()).copied().collect()).collect();
-    let fp_of = |x: Key| -> usize { if x == k { fp } else { pre.get(x).map_or(0, |e| e.fp) } };
-    let post_bytes: usize = post.values().map(|x| x.1).sum();
-    // some removed entry r is "necessary" if putting it back breaks a bound: then the number of
-    // evictions is explainable by *some* eviction order and the blame goes to the order (policy)
-    let some_necessary = removed.iter().any(|r| {
-        let over_mem = cfg.max_memory.map_or(false, |m| post_bytes + fp_of(*r) > m);
-        let over_lim = cfg.limit.map_or(false, |n| post.len() + 1 > n);
-        over_mem || over_lim
-    });
-    let limit_victims_max = if cfg.limit.is_some() { 1 } else { 0 };
-    let too_many_for_limit_only = cfg.max_memory.is_none() && removed.len() > limit_victims_max;
-    if !removed.is_empty() && (!some_necessary || too_many_for_limit_only) {
-        let (p, kind) = if cfg.max_memory.is_some() && (pr == "memory" || pr == "both") { ("C05", "needless-eviction-under-memory-limit") } else if cfg.max_memory.is_some() && pr == "none" { ("C05", "eviction-while-everything-fits") } else { ("C04", "needless-or-multiple-eviction") };
-        let p2 = if cfg.limit.is_some() && pr == "none" && cfg.max_memory.is_none() { "C04" } else { p };
-        return (p2.into(), sig(p2, cfg, kind, &disc), format!("store removed {:?} although the cache was within its bounds without removing all of them; allowed victim sets {:?}", removed, allowed_sets));
-    }
-    if removed.is_empty() {
-        return ("C04".into(), sig("C04", cfg, "store-outcome-unexplained", &disc), format!("nothing removed; allowed victim sets {:?}", allowed_sets));
-    }
-    // 5. plausible count, wrong victim(s): the eviction order is not the policy's
-    let (p, kind) = match cfg.policy {
-        Policy::Fifo => ("C07", "victim-not-oldest-stored"),
-        Policy::Lru => ("C07", "victim-not-least-recently-used"),
-        Policy::Lfu | Policy::Arc | Policy::Tlru => ("C08", "victim-not-score-minimiser"),
-        Policy::Random => ("C05", "random-victims-not-minimal"),
-    };
-    (p.into(), sig(p, cfg, kind, &disc), format!("store removed {:?}; allowed victim sets {:?}", removed, allowed_sets))
-}
-
-fn classify_lookup(cfg: &Cfg, pre: &State, k: Key, now: i64, got: Option<u64>, post: &BTreeMap<Key, (u64, usize)>) -> (String, String, String) {
-    let ttl = if cfg.ttl.is_some() { "some" } else { "none" };
-    let disc = format!("ttl={}", ttl);
-    let e = pre.get(k);
-    match (e, got) {
-        (None, Some(v)) => return ("C01".into(), sig("C01", cfg, "hit-on-absent-key", &disc), format!("lookup k{} returned {:x} but nothing is stored for it", k, v)),
-        (Some(en), Some(v)) => {
-            let (_may_exp, may_live) = model::expiry_band(cfg, now - en.born);
-            if !may_live {
-                return ("C06".into(), sig("C06", cfg, "expired-entry-served", &disc), format!("k{} of age {} ns served, ttl {:?}", k, now - en.born, cfg.ttl));
-            }
-            if v != en.val {
-                return ("C01".into(), sig("C01", cfg, "wrong-value", &disc), format!("lookup k{} returned {:x}, last stored {:x}", k, v, en.val));
-            }
-        }
-        (Some(en), None) => {
-            let (may_exp, _) = model::expiry_band(cfg, now - en.born);
-            if !may_exp {
-                let p = if cfg.ttl.is_some() { "C06" } else { "C04" };
-                let kind = if cfg.ttl.is_some() { "live-entry-not-served" } else { "stored-entry-not-found" };
-                return (p.into(), sig(p, cfg, kind, &disc), format!("k{} of age {} ns not served (ttl {:?})", k, now - en.born, cfg.ttl));
-            }
-        }
-        (None, None) => {}
-    }
-    // result fine: the store must be unchanged except for a purged expired key
-    let mut want: BTreeSet<Key> = pre.keys();
-    if got.is_none() {
-        want.remove(&k);
-    }
-    let have: BTreeSet<Key> = post.keys().copied().collect();
-    if have.contains(&k) && got.is_none() && e.is_some() {
-        return ("C06".into(), sig("C06", cfg, "expired-entry-not-purged", &disc), format!("k{} expired and looked up but still in the store", k));
-    }
-    if have != want {
-        return ("C04".into(), sig("C04", cfg, "lookup-changed-other-entries", &disc), format!("store after lookup {:?}, expected {:?}", have, want));
-    }
-    for (kk, (v, _)) in post {
-        if pre.get(*kk).map(|x| x.val) != Some(*v) {
-            return ("C01".into(), sig("C01", cfg, "value-changed-by-lookup", &disc), format!("k{} value changed", kk));
-        }
-    }
-    ("C15".into(), sig("C15", cfg, "core-counters", &disc), "hit/miss counters differ from the model".into())
-}
-
 fn snap_keys(s: &Snap) -> Result<BTreeMap<Key, (u64, usize)>, String> {
     let mut m = BTreeMap::new();
     for (k, (id, _f, fp)) in &s.ents {
@@ -334,6 +202,10 @@ fn run_history(ctx: &mut Ctx, cfg: &Cfg, ops: &[Op], hist_id: u64, verbose: bool
         Flavour::Async => Box::new(AsyncEng::new(cfg, &store)),
     };
     let mut belief = Belief::new();
+    // keys whose entry the model purged on an expired lookup and that were not stored since
+    let mut purged_by_expiry: BTreeSet<Key> = BTreeSet::new();
+    // the engine's order queue as observed after the previous operation
+    let mut last_queue: Vec<String> = vec![];
     let witness = |upto: usize, extra: Value| -> Value {
         json!({"monitor": "l1mon", "cfg": cfg_json(cfg), "cfg_index": ctx_cfg_index(), "ops": ops[..=upto].iter().map(op_json).collect::<Vec<_>>(), "failed_at": upto, "detail": extra})
     };
@@ -358,7 +230,7 @@ fn run_history(ctx: &mut Ctx, cfg: &Cfg, ops: &[Op], hist_id: u64, verbose: bool
                     Err(p) => {
                         let msg = panic_msg(&p);
                         let disc = format!("limit={},mem={}", opt(cfg.limit.is_some()), opt(cfg.max_memory.is_some()));
-                        rep.violation("C16", &sig("C16", cfg, "panic-in-lookup", &disc), &format!("lookup panicked: {}", msg), witness(i, json!({"panic": msg})));
+                        rep.violation("C16", &sig("C16", "L1", cfg, "panic-in-lookup", &disc), &format!("lookup panicked: {}", msg), witness(i, json!({"panic": msg})));
                         return false;
                     }
                 };
@@ -366,7 +238,7 @@ fn run_history(ctx: &mut Ctx, cfg: &Cfg, ops: &[Op], hist_id: u64, verbose: bool
                 let post = match snap_keys(&snap) {
                     Ok(p) => p,
                     Err(k) => {
-                        rep.violation("C01", &sig("C01", cfg, "foreign-key-in-store", ""), &format!("key {:?} in store", k), witness(i, json!({})));
+                        rep.violation("C01", &sig("C01", "L1", cfg, "foreign-key-in-store", ""), &format!("key {:?} in store", k), witness(i, json!({})));
                         return false;
                     }
                 };
@@ -396,6 +268,7 @@ fn run_history(ctx: &mut Ctx, cfg: &Cfg, ops: &[Op], hist_id: u64, verbose: bool
                         rep.count("C01", "lookups_of_absent_key", 1);
                     }
                 }
+                let had_entry_before = belief.states.iter().any(|s| s.get(*k).is_some());
                 let step = belief.advance(|s| {
                     let outs = model::lookup(cfg, s, *k, now);
                     let allowed: Vec<String> = outs.iter().map(|(o, t)| format!("{:?} -> {}", o, model::fmt_state(t))).collect();
@@ -417,14 +290,19 @@ fn run_history(ctx: &mut Ctx, cfg: &Cfg, ops: &[Op], hist_id: u64, verbose: bool
                 rep.count("C15", "counter_comparisons", 1);
                 rep.distinct("C15", hash64(&[ctx.cfg_index as u64, stats.0.min(40), stats.1.min(40)]));
                 match step {
-                    Step::Ok => {}
+                    Step::Ok => {
+                        if had_entry_before && got_id.is_none() {
+                            purged_by_expiry.insert(*k);
+                        }
+                        last_queue = snap.queue.clone();
+                    }
                     Step::Overflow => {
                         rep.inconclusive("L1", "belief cap");
                         return true;
                     }
                     Step::Empty { before, allowed } => {
                         let pre = &before[0];
-                        let (p, sg, what) = classify_lookup(cfg, pre, *k, now, got_id, &post);
+                        let (p, sg, what) = classify_lookup("L1", cfg, pre, *k, now, got_id, &post);
                         rep.violation(&p, &sg, &what, witness(i, json!({"pre": model::fmt_state(pre), "observed_result": got_id.map(|x| format!("{:x}", x)), "observed_store": fmt_post(&post), "observed_queue": snap.queue, "observed_stats": [stats.0, stats.1], "model_stats": [pre.hits, pre.misses], "allowed": allowed, "now_ns": now})));
                         if verbose {
                             eprintln!("VIOLATION {} {}", sg, what);
@@ -443,7 +321,7 @@ fn run_history(ctx: &mut Ctx, cfg: &Cfg, ops: &[Op], hist_id: u64, verbose: bool
                 if let Err(p) = r {
                     let msg = panic_msg(&p);
                     let disc = format!("limit={},mem={}", opt(cfg.limit.is_some()), opt(cfg.max_memory.is_some()));
-                    rep.violation("C16", &sig("C16", cfg, "panic-in-store", &disc), &format!("store panicked: {}", msg), witness(i, json!({"panic": msg})));
+                    rep.violation("C16", &sig("C16", "L1", cfg, "panic-in-store", &disc), &format!("store panicked: {}", msg), witness(i, json!({"panic": msg})));
                     if verbose {
                         eprintln!("VIOLATION C16 panic {}", msg);
                     }
@@ -453,7 +331,7 @@ fn run_history(ctx: &mut Ctx, cfg: &Cfg, ops: &[Op], hist_id: u64, verbose: bool
                 let post = match snap_keys(&snap) {
                     Ok(p) => p,
                     Err(k) => {
-                        rep.violation("C01", &sig("C01", cfg, "foreign-key-in-store", ""), &format!("key {:?} in store", k), witness(i, json!({})));
+                        rep.violation("C01", &sig("C01", "L1", cfg, "foreign-key-in-store", ""), &format!("key {:?} in store", k), witness(i, json!({})));
                         return false;
                     }
                 };
@@ -518,7 +396,10 @@ fn run_history(ctx: &mut Ctx, cfg: &Cfg, ops: &[Op], hist_id: u64, verbose: bool
                 });
                 rep.count("L1", "stores", 1);
                 match step {
-                    Step::Ok => {}
+                    Step::Ok => {
+                        purged_by_expiry.remove(k);
+                        last_queue = snap.queue.clone();
+                    }
                     Step::Overflow => {
                         rep.inconclusive("L1", "belief cap");
                         return true;
@@ -526,11 +407,21 @@ fn run_history(ctx: &mut Ctx, cfg: &Cfg, ops: &[Op], hist_id: u64, verbose: bool
                     Step::Empty { before, allowed } => {
                         let pre = &before[0];
                         let (p, sg, what) = if (pre.hits, pre.misses) != stats {
-                            ("C15".to_string(), sig("C15", cfg, "core-counters-changed-by-store", ""), "a store changed the hit/miss counters".to_string())
+                            ("C15".to_string(), sig("C15", "L1", cfg, "core-counters-changed-by-store", ""), "a store changed the hit/miss counters".to_string())
                         } else {
-                            classify_store(cfg, pre, *k, *id, fp, now, &post)
+                            classify_store("L1", cfg, pre, *k, *id, fp, now, &post)
                         };
-                        rep.violation(&p, &sg, &what, witness(i, json!({"pre": model::fmt_state(pre), "stored": {"key": k, "fp": fp, "id": format!("{:x}", id)}, "observed_store": fmt_post(&post), "observed_queue": snap.queue, "allowed": allowed, "now_ns": now})));
+                        // was the queue still carrying a key purged on an expired lookup?  (C06: the
+                        // expired entry "no longer occupies capacity")
+                        let orphan = last_queue.iter().filter_map(|q| key_of(q)).find(|q| *q != *k && pre.get(*q).is_none() && purged_by_expiry.contains(q));
+                        let w = witness(i, json!({"pre": model::fmt_state(pre), "stored": {"key": k, "fp": fp, "id": format!("{:x}", id)}, "observed_store": fmt_post(&post), "observed_queue": snap.queue, "queue_before": last_queue, "allowed": allowed, "now_ns": now}));
+                        match orphan {
+                            Some(q) if matches!(p.as_str(), "C04" | "C05" | "C07" | "C08") => {
+                                let what2 = format!("{} (the order queue still held k{}, purged on an expired lookup)", what, q);
+                                rep.violation_tainted(&p, &sg, &what2, w, "C06", "expiry-purge");
+                            }
+                            _ => rep.violation(&p, &sg, &what, w),
+                        }
                         if verbose {
                             eprintln!("VIOLATION {} {}", sg, what);
                         }
